@@ -127,3 +127,19 @@ func init() {
 		Trusted: []string{"T1 go toolchain, solvers", "T2 govc", "itype.equals/underlying/id are pure functions of their receiver"},
 	})
 }
+
+func init() {
+	register(&PropDef{
+		ID: "C15", Patterns: []string{"./interp"},
+		Extra:   func(r *Run) { r.phaseOrder(); r.depsThroughFunctions() },
+		Covered: []string{"getVarDependencies records every reference to another package-level variable in the initialiser (all positions except selector field names)", "genGlobalVarDecl: canInit is 'all dependencies already emitted'", "phase order root -> variables -> inits -> main in Execute and importSrc", "importSrc evaluates a package at most once"},
+		Uncov:   []string{"dependencies through the bodies of functions and methods (known finding)", "that the emitted order is the earliest-ready order of the Go spec (whole-loop invariant not attempted)", "init functions kept in source order inside cfg"},
+		Trusted: []string{"T1 go toolchain, solvers", "T2 govc", "scope.lookup and childPos are pure functions"},
+	})
+	register(&PropDef{
+		ID: "C16", Patterns: []string{"./interp"},
+		Covered: []string{"importSrc: already imported => recorded name returned, no evaluation step; cycle check precedes every evaluation step and yields an error; success registers the package; relative imports of main resolve against '.' for nested packages"},
+		Uncov:   []string{"vendor / GOPATH search (pkgDir, previousRoot, effectivePkg path-segment manipulation): not under contract", "real vs. virtual filesystem equivalence"},
+		Trusted: []string{"T1 go toolchain, solvers", "T2 govc"},
+	})
+}
